@@ -23,7 +23,9 @@ THEOREMS = ["Pyro.C06.C06_roundtrip", "Pyro.C06.C06_sender_limit", "Pyro.C06.C06
             # ReceivingMessage.add_payload transcribed from the source on every run (py2ir.py) = the model, for all inputs
             "Pyro.C06Ast.addPayload_translated", "Pyro.C06Ast.C06_source_accepts_tiled", "Pyro.C06Ast.C06_source_outcomes",
             # ... and so are ReceivingMessage.__init__ (header parsing, incl. the receiver-side size limit) and validate
-            "Pyro.C06Ast.init_translated", "Pyro.C06Ast.validate_translated"]
+            "Pyro.C06Ast.init_translated", "Pyro.C06Ast.validate_translated",
+            # ... and assembled the way recv_stub calls them they are the model's recvStub; "accepts only well-formed" transferred
+            "Pyro.C06Ast.C06_source_recvStub", "Pyro.C06Ast.C06_source_accepts_only_wellformed"]
 SUITES = ["encode", "decode"]
 RULE = ("messages generated field by field (boundary values of every 8/16/32-bit field, payload sizes swept across the "
         "100-byte compression threshold, 0-4 annotations incl. zero-length / memoryview / bytearray values, correlation id "
